@@ -23,7 +23,8 @@ def _cases(prop):
             if os.path.exists(mp):
                 m = json.load(open(mp))
                 if m.get("property") == prop:
-                    out.append({"id": "seed:" + d, "patch": os.path.join(sd, d, "patch.diff"), "expect_rules": (m.get("detected_by") or {}).get(prop, [])})
+                    out.append({"id": "seed:" + d, "patch": os.path.join(sd, d, "patch.diff"), "expect_rules": (m.get("detected_by") or {}).get(prop, []),
+                                "declared_not_decided": m.get("declared_not_decided")})
     ep = os.path.join(VERIF, "selftest", "edits.json")
     if os.path.exists(ep):
         for e in json.load(open(ep)):
@@ -66,6 +67,8 @@ def _run_case(prop, case, slot):
             res["status"] = "variant does not compile"
         elif rules:
             res["status"] = "detected"
+        elif case.get("declared_not_decided"):
+            res["status"] = "not decided (declared N: %s)" % case["declared_not_decided"]
         else:
             res["status"] = "MISSED"
         return res
@@ -89,6 +92,7 @@ def run(prop, rep, width=4):
         "detected": sum(1 for r in results if r.get("status") == "detected"),
         "missed": [r["id"] for r in results if r.get("status") == "MISSED"],
         "not_applicable": [r["id"] for r in results if str(r.get("status", "")).startswith("not-applicable")],
+        "declared_not_decided": [r["id"] for r in results if str(r.get("status", "")).startswith("not decided")],
     }
     for r in results:
         if r.get("status") == "MISSED":
